@@ -1107,11 +1107,11 @@ def wl_formulas(run, rng, idx):
 
 
 WORKLOADS = [
-    Workload("origin_to", wl_origin, quick=144, thorough=28800),
-    Workload("tangent", wl_tangent, quick=144, thorough=28800),
-    Workload("point_along", wl_point_along, quick=192, thorough=38400),
-    Workload("towards", wl_towards, quick=96, thorough=19200),
-    Workload("angle", wl_angle, quick=96, thorough=19200),
-    Workload("polygon", wl_polygon, quick=132, thorough=15840),
-    Workload("formulas", wl_formulas, quick=66, thorough=7920),
+    Workload("origin_to", wl_origin, quick=144, thorough=17280),
+    Workload("tangent", wl_tangent, quick=144, thorough=17280),
+    Workload("point_along", wl_point_along, quick=192, thorough=23040),
+    Workload("towards", wl_towards, quick=96, thorough=11520),
+    Workload("angle", wl_angle, quick=96, thorough=11520),
+    Workload("polygon", wl_polygon, quick=132, thorough=9504),
+    Workload("formulas", wl_formulas, quick=66, thorough=4752),
 ]
